@@ -4,9 +4,9 @@ From Coq Require Import List Bool Arith.
 From TP Require Import Model.Rename Proofs.C16Proofs.
 Import ListNotations.
 
-(* whatever the full conflict check accepts leaves EVERY identifier use bound to the same declaration: no capture, no new
+(* in an error-free project (every use denotes a declaration) whatever the full conflict check accepts leaves EVERY identifier use bound to the same declaration: no capture, no new
    shadowing; diagnostics and run-time behaviour are functions of the binding structure *)
-Theorem rename_preserves_binding : forall P t y P', rename {| r_full := true |} P t y = Some P' -> bindings P' = bindings P.
+Theorem rename_preserves_binding : forall P t y P', no_unbound P -> rename {| r_full := true |} P t y = Some P' -> bindings P' = bindings P.
 Proof. exact rename_preserves_binding_l. Qed.
 (* the declaring-scope-only check of the original code accepts a capturing rename *)
 Theorem declaring_scope_check_refuted :
